@@ -227,6 +227,10 @@ class ChunkLoopTrans(LoopTrans):
         if options is None:
             options = {}
         chunk_size = options.get("chunksize", 32)
+        # Each chunk must start on an iteration of the original loop, so
+        # the outer loop has to advance by a multiple of the loop's step.
+        step_size = abs(int(node.step_expr.value))
+        chunk_size = (chunk_size // step_size) * step_size
         # Create (or find) the symbols we need for the chunking transformation
         routine = node.ancestor(nodes.Routine)
         end_inner_loop = routine.symbol_table.find_or_create_tag(
